@@ -100,7 +100,7 @@ def gen_case(rng, tier, pid, n):
         required += [s for s in sub if s.key in used and rng.random() < 0.3]
     if n == 1:
         required = list(sub)
-    entry = rng.choice(["api", "api", "native", "mixed"])
+    entry = rng.choice(["api", "api", "native", "mixed", "umist"] + (["umist", "mixed"] if pid == "C04" else []))
     cooling = []
     if want_cool:
         cooling = rng.sample(["CIC_HI", "CIC_HeI", "CIC_HeII", "CIC_He_2S", "RC_HII", "RC_HeI", "RC_HeII",
@@ -176,7 +176,8 @@ def balanced_reactions(rng, sub, nre):
             fit = [s for s in cands if s.comp and all(rem[e] >= n for e, n in s.comp)]
             if not fit:
                 break
-            s = rng.choice(fit)
+            # (often the smallest fragment: products like C2H2 + H + H + H use every product column of a file format)
+            s = min(fit, key=lambda x: (sum(n for _, n in x.comp), x.name)) if rng.random() < 0.4 else rng.choice(fit)
             pr_.append(s)
             rem.subtract(dict(s.comp))
             remq -= s.charge
@@ -259,6 +260,20 @@ def build_network(case, scratch: Path, with_mods=True, with_ratemod=True):
             f = scratch / "net.naunet"
             f.write_text("".join(netgen.native_line(r) + "\n" for r in reacs))
             files, fmts = [f], ["naunet"]
+        elif entry == "umist":
+            # alternating runs of lines that fit the RATE12 columns (UMIST files) and lines that do not (native files), in order
+            files, fmts, run, fit = [], [], [], None
+            for r in reacs + [None]:
+                f_ = None if r is None else netgen.fits_umist(r)
+                if run and f_ != fit:
+                    fn = scratch / f"part{len(files)}.{'umist' if fit else 'naunet'}"
+                    fn.write_text("".join((netgen.umist_line(x) if fit else netgen.native_line(x)) + "\n" for x in run))
+                    files.append(fn)
+                    fmts.append("umist" if fit else "naunet")
+                    run = []
+                if r is not None:
+                    run.append(r)
+                    fit = f_
         else:
             h = len(reacs) // 2
             f1, f2 = scratch / "a.naunet", scratch / "b.kida"
@@ -604,6 +619,11 @@ def batch_check(chk, case, rd, which):
     for what, cur, got, want in rd.batch_layout():
         if not what.startswith(which):
             continue
+        if got != want and what.endswith("-udata"):
+            chk.violation({"kind": "batch-parameters", "what": what},
+                          f"cusparse {what.split('-')[0]} kernel: the rates of a system are not evaluated with its own abundances and "
+                          f"parameter block (y_cur, &d_udata[cur])", input=case_summary(case))
+            return
         if got != want:
             chk.violation({"kind": "batch-offset", "what": what},
                           f"cusparse {what}: system {cur} of a batch is addressed at offset {got}, its data is at {want} "
@@ -695,6 +715,12 @@ def oracle_c03(chk, case, net, rd, rds):
     batch_check(chk, case, rd, ("fex", "Fex", "jac", "Jac"))
     summ = case_summary(case)
     b = rd.backend
+    # -- the size macros behave as one value inside index arithmetic
+    for name, got, want in (rd.macro_hygiene() if rd.backend in ("dense", "cusparse") else []):
+        chk.violation({"kind": "macro-not-atomic", "macro": name},
+                      f"`7 * {name} * 3 - …` expands to a text that evaluates to {got}, not {want}: the macro's body is not "
+                      f"parenthesised, so every `cur * {name}` / `lrw / {name}` index computation is off", input=summ)
+        return
     # -- every rate-array subscript written by EvalRates lies inside k[NREACTIONS], and every slot is written
     if case["reacs"]:
         ks = [i for i, _, _ in rd.rates("k")]
